@@ -397,6 +397,11 @@ func ScenarioNames(property string) []string {
 }
 
 // Execute performs one run inside a fresh synctest bubble.
+func init() {
+	// all packages of the code under test are initialised by now: remember their package-level state
+	simrt.SnapshotGlobals()
+}
+
 func Execute(t *testing.T, spec RunSpec) (res RunResult) {
 	res.Spec = spec
 	sc := scenarios[spec.Property+"/"+spec.Scenario]
@@ -404,6 +409,8 @@ func Execute(t *testing.T, spec RunSpec) (res RunResult) {
 		res.BubblePanic = "unknown scenario " + spec.Property + "/" + spec.Scenario
 		return
 	}
+	// every run starts from the package-level state of a freshly started process (simrt.RegisterGlobals)
+	simrt.RestoreGlobals()
 	var r *Run
 	if sc.NoBubble {
 		var tape *Tape
